@@ -1,9 +1,9 @@
-\* replayed exhaustively: MIXED GRANULARITY, <= 2 records of 4 units at 0, 1, 3, 6 in units of 1, 2, 4 bytes x the 7 windows of
+\* replayed exhaustively: MIXED GRANULARITY, <= 2 records of 4 units at 0, 1, 4 in units of 1, 2, 4 bytes x the 7 windows of
 \* R_Mixed x ALL / ODD / WORD1
 CONSTANTS
   Dev = {}
   MaxRecs = 2
-  Starts = {0, 1, 3, 6}
+  Starts = {0, 1, 4}
   UnitLens = {4}
   GranSet = {1, 2, 4}
   EntryAddrs = {}
